@@ -16,6 +16,7 @@ type C15SrvPeek struct {
 	Unstarted           int
 	Streams             int
 	InGoAway            bool
+	GoAwayErr           bool // inGoAway with an error code (set without a second GOAWAY when the error follows a graceful one)
 	WritingFrame        bool
 }
 
@@ -29,6 +30,7 @@ func (sc *serverConn) C15Peek() C15SrvPeek {
 		Unstarted:           len(sc.unstartedHandlers),
 		Streams:             len(sc.streams),
 		InGoAway:            sc.inGoAway,
+		GoAwayErr:           sc.inGoAway && sc.goAwayCode != ErrCodeNo,
 		WritingFrame:        sc.writingFrame,
 	}
 }
